@@ -180,6 +180,25 @@ CATALOGUE: dict[str, tuple[type, list]] = {
     "AnyS": (AnyS, [lambda: {"v": [1, 2, 3]}, lambda: {"v": {"k": [1]}, "w": [4]}, lambda: {"v": range(3)}]),
 }
 
+# LONG containers (16, 17, 40, 300 elements; long inner containers): an implementation that treats
+# big payloads differently (sharing instead of copying, chunked conversion) must still detach the
+# instance from the caller's containers
+CATALOGUE.update(
+    {
+        "SeqS/long": (SeqS, [lambda: {"items": list(range(16))}, lambda: {"items": list(range(17))}, lambda: {"items": list(range(40))}, lambda: {"items": list(range(300))}]),
+        "SetS/long": (SetS, [lambda: {"tags": {f"t{i}" for i in range(17)}}, lambda: {"tags": {f"t{i}" for i in range(70)}}]),
+        "MapS/long": (MapS, [lambda: {"m": {f"k{i}": i for i in range(17)}}, lambda: {"m": _proxy({f"k{i}": i for i in range(33)})}]),
+        "TupV/long": (TupV, [lambda: {"t": tuple(range(17))}, lambda: {"t": list(range(33))}]),
+        "SeqSeq/long": (SeqSeq, [lambda: {"rows": [list(range(17)), [1]]}, lambda: {"rows": [[i] for i in range(17)]}]),
+        "MapSeq/long": (MapSeq, [lambda: {"m": {"ab": list(range(20))}}, lambda: {"m": {f"k{i}": [i] for i in range(17)}}]),
+        "GSeqInt/long": (ak.GI[Sequence[int]], [lambda: {"v": list(range(17))}]),
+        "GSeqStr/long": (ak.GI[Sequence[str]], [lambda: {"v": [f"s{i}" for i in range(17)]}]),
+        "Defaults/long": (Defaults, [lambda: {"y": list(range(17))}]),
+        "Nested/long": (Nested, [lambda: {"inner": ak.Inner(x=1), "items": [ak.Inner(x=i) for i in range(17)]}]),
+        "OptS/long": (OptS, [lambda: {"o": list(range(17))}]),
+    }
+)
+
 # replacement values per (class, attribute): (valid other value builder, invalid value)
 REPLACE: dict[str, dict[str, tuple]] = {
     "Scalars": {"a": (lambda: 9, "bad", ""), "b": (lambda: "z", 7, 0), "c": (lambda: 9.5, "bad", "")},
@@ -208,6 +227,23 @@ REPLACE: dict[str, dict[str, tuple]] = {
     "Opaque": {"h": (lambda: OPAQUE2, None, None), "n": (lambda: 9, "bad", "")},
     "AnyS": {"v": (lambda: [7], None, None), "w": (lambda: [9], ["bad"], 0)},
 }
+
+
+REPLACE.update(
+    {
+        "SeqS/long": {"items": (lambda: list(range(100, 120)), list(range(19)) + ["bad"], 0)},
+        "SetS/long": {"tags": (lambda: {f"z{i}" for i in range(18)}, {f"z{i}" for i in range(18)} | {1}, 0)},
+        "MapS/long": {"m": (lambda: {f"z{i}": i for i in range(18)}, {**{f"z{i}": i for i in range(18)}, "k": "bad"}, 0)},
+        "TupV/long": {"t": (lambda: tuple(range(50, 70)), tuple(range(19)) + ("bad",), 0)},
+        "SeqSeq/long": {"rows": (lambda: [list(range(18))], [list(range(18)) + ["bad"]], 0)},
+        "MapSeq/long": {"m": (lambda: {"q": list(range(18))}, {"q": list(range(18)) + ["bad"]}, 0)},
+        "GSeqInt/long": {"v": (lambda: list(range(18)), list(range(18)) + ["bad"], 0)},
+        "GSeqStr/long": {"v": (lambda: [f"z{i}" for i in range(18)], [f"z{i}" for i in range(18)] + [7], 0)},
+        "Defaults/long": {"x": (lambda: 9, "bad", ""), "y": (lambda: list(range(18)), list(range(18)) + ["bad"], 0)},
+        "Nested/long": {"inner": (lambda: ak.Inner(x=9), 7, 0), "items": (lambda: [ak.Inner(x=i) for i in range(18)], [ak.Inner(x=i) for i in range(18)] + [7], 0)},
+        "OptS/long": {"o": (lambda: list(range(18)), list(range(18)) + ["bad"], 0)},
+    }
+)
 
 
 def programs(tier: str):
@@ -385,7 +421,8 @@ def execute(program, ch: Chooser) -> Result:  # noqa: C901, PLR0912, PLR0915
                 kw[extra[1]] = rep[extra[1]][2 if extra[0] == "bad2" else 1]
                 expect_fail = True
             try:
-                new = inst.updated(**{k_: (v_ if isinstance(v_, ak.AlwaysEq) else copy.deepcopy(v_)) for k_, v_ in kw.items()})
+                passed = {k_: (v_ if isinstance(v_, ak.AlwaysEq) else copy.deepcopy(v_)) for k_, v_ in kw.items()}
+                new = inst.updated(**passed)
                 for k_, v_ in kw.items():
                     if isinstance(v_, ak.AlwaysEq) and not expect_fail and getattr(new, k_, None) is not v_:
                         viols.append(viol("updated", "named-attribute-not-replaced", "the object that was supplied", ak.describe(getattr(new, k_, None)), history=hist))
@@ -398,6 +435,14 @@ def execute(program, ch: Chooser) -> Result:  # noqa: C901, PLR0912, PLR0915
                         viols.append(viol("updated", "wrong-copy", snap(fresh), snap(new), history=hist))
                     if new is inst and subset:
                         viols.append(viol("updated", "same-object", "a new instance", "self", history=hist))
+                    # the derived copy is detached from the containers that were passed to updated()
+                    if name not in ALIASING_ALLOWED and not viols:
+                        before = snap(new)
+                        for mlabel, fn in mutators({k_: v_ for k_, v_ in passed.items() if k_ in attrs}):
+                            fn()
+                            if snap(new) != before:
+                                viols.append(viol("updated", "copy-aliases-its-argument", before, snap(new), history=[*hist, f"mutate passed {mlabel}"]))
+                                break
             except Exception as exc:  # noqa: BLE001
                 if not expect_fail:
                     viols.append(viol("updated", "valid-rejected", "an updated copy", f"{type(exc).__name__}: {exc}"[:140], history=hist))
